@@ -31,14 +31,14 @@ RULE = ("fault space = every executed statement (LINE event) of NP2Converter.* a
         "two occurrences of each distinct (function, line) site (first / last), thorough = EVERY event index of the trace (each executed statement occurrence), interrupt and "
         "kill semantics; each crash is followed by a retry (overwrite=False) and a forced re-run (overwrite=True). Histories: sequences of "
         "up to 3 process() calls over {overwrite F/T} x {post_check, compress, delete_original} in {F,T}^3 (options may change between "
-        "steps) x {NP2.4 default / random shanks, NP2.1, NP1, already-split shank} x bin / cbin originals. Storage faults: one bit flipped in one shank file between "
+        "steps) x {NP2.4 default / random shanks, NP2.1, NP1, already-split shank} x bin / cbin originals. Compression-library failures at the first / last chunk of every file compressed during a conversion. Storage faults: one bit flipped in one shank file between "
         "splitting and verification, in every verification window in turn (post_check + delete_original). Non-trivial: a history with >= 2 "
         "steps, or a crash whose failpoint fired after the first processing window; distinct = distinct (kind, options, history | crash site, occurrence)")
 ASSUMPTIONS = ["crash = Python-level interruption at a statement boundary, or os._exit of the process; loss of unsynced page cache is not modelled",
                "stale but valid files of an earlier run (e.g. an old lf.cbin beside a fresh lf.bin) are not a violation: the property asks for a complete, valid set",
                "after the original has been deleted by a verified run the history ends (there is no input left to hand to the converter)"]
 REQUIRED = {"reused_converter_runs": 12, "crash_points_fired": 40, "distinct_crash_sites": 30, "history_steps": 60, "remove_original_judged": 3, "idempotence_checked": 8,
-            "completeness_checked": 20, "recoverability_checked": 100, "corruptions_injected": 12, "originals_with_inconsistent_metadata": 5}
+            "completeness_checked": 20, "recoverability_checked": 100, "corruptions_injected": 12, "originals_with_inconsistent_metadata": 5, "compression_faults_injected": 12}
 CASE_TIMEOUT = 60.0
 MAX_PROCS = 14
 WINDOW = 1200
@@ -369,6 +369,10 @@ def gen_cases(seed, tier):
     #      delete_original the original may only go once the output has been VERIFIED identical - the audit-hook invariant judges the unlink
     for i in range(6 if tier == "quick" else 48):
         cases.append({"cls": "corrupt", "kind": ["NP2.4", "NP2.4r"][i % 2], "compress": bool((i // 2) % 2), "cbin": bool((i // 4) % 2), "seed": seed * 100 + 70 + i, "_w": 8})
+    # ---- the compression library fails part-way (first / last chunk of the j-th file it compresses during the conversion): the per-shank / in-place
+    #      compression steps are where a full disk or a pulled drive shows up; followed by a retry and a forced re-run
+    for i in range(6 if tier == "quick" else 48):
+        cases.append({"cls": "compress-fault", "kind": ["NP2.1", "NP2.4", "NP2.4r"][i % 3], "delete": bool((i // 3) % 2), "seed": seed * 100 + 80 + i, "_w": 8})
     combos = [("NP2.4", 7), ("NP2.4", 3), ("NP2.4", 2), ("NP2.1", 2), ("NP2.4r", 5), ("NP2.1", 0), ("NP2.4", 0)]
     nsl = 14 if tier == "quick" else 56
     for ci, (kind, o) in enumerate(combos if tier == "thorough" else combos[:4]):
@@ -515,6 +519,75 @@ def run_case(case):
             nt += 1
             shutil.rmtree(root, ignore_errors=True)
         res.sig = f"corrupt-{kind}-{case['compress']}-{case['cbin']}-{case['seed']}"
+        res.nontrivial = nt > 0
+        res.nt = nt
+        return res
+    if cls == "compress-fault":
+        kind = case["kind"]
+        opts = {"post_check": True, "compress": True, "delete_original": case["delete"]}
+        base = d / "base"
+        rec = make_original(rng, base, kind, False)
+        # how many files does a clean conversion compress?
+        seen = []
+        orig_cc = mtscomp.Writer._compress_chunk
+
+        def spy_cc(self, chunk_idx):
+            key = str(getattr(self, "data_path", id(self)))
+            if key not in seen:
+                seen.append(key)
+            return orig_cc(self, chunk_idx)
+        t0 = d / "trace"
+        shutil.copytree(base, t0)
+        mtscomp.Writer._compress_chunk = spy_cc
+        try:
+            step(res, t0, rec, opts, False, "trace pass")
+        finally:
+            mtscomp.Writer._compress_chunk = orig_cc
+        shutil.rmtree(t0)
+        nfiles = len(seen)
+        nt = 0
+        for j in range(nfiles):
+            for kk in (0, "last"):
+                w = d / "w"
+                shutil.rmtree(w, ignore_errors=True)
+                shutil.copytree(base, w)
+                order = []
+
+                def failing_cc(self, chunk_idx, _j=j, _kk=kk, _order=order):
+                    key = str(getattr(self, "data_path", id(self)))
+                    if key not in _order:
+                        _order.append(key)
+                    if _order.index(key) == _j and chunk_idx == (0 if _kk == 0 else self.n_chunks - 1):
+                        res.count("compression_faults_injected")
+                        raise OSError(f"injected failure while compressing chunk {chunk_idx} of file #{_j}")
+                    return orig_cc(self, chunk_idx)
+                mtscomp.Writer._compress_chunk = failing_cc
+                label = f"{kind} delete_original={case['delete']}: compression library fails at the {'first' if kk == 0 else 'last'} chunk of file #{j + 1}/{nfiles}"
+                try:
+                    r1 = step(res, w, rec, opts, False, label)
+                finally:
+                    mtscomp.Writer._compress_chunk = orig_cc
+                res.check(r1["exc"] is not None, "compress-fault:swallowed", f"{label}: the failure did not propagate (status {r1['status']})")
+                res.count("recoverability_checked")
+                res.check(recoverable(w, rec), "recoverable:lost-after-compress-fault", f"{label}: after the failed compression the recording is not recoverable")
+                r2 = step(res, w, rec, opts, False, label + " -> retry")
+                if r2["exc"] and r2["exc"] != "no-original":
+                    res.violation("retry:exception", f"{label}: retry raised {r2['exc']}", traceback=r2.get("tb", ""))
+                res.count("recoverability_checked")
+                res.check(recoverable(w, rec), "recoverable:lost-after-retry", f"{label}: after the retry the recording is not recoverable")
+                if r2["status"] == 1:
+                    complete(res, w, rec, label + " -> retry returned 1", opts)
+                if not r2["deleted"] and r2["exc"] != "no-original":
+                    r3 = step(res, w, rec, opts, True, label + " -> forced re-run")
+                    if r3["exc"]:
+                        res.violation("forced-rerun:exception", f"{label}: forced re-run raised {r3['exc']}", traceback=r3.get("tb", ""))
+                    else:
+                        res.check(r3["status"] == 1, "forced-rerun:status", f"{label}: forced re-run returned {r3['status']}")
+                        complete(res, w, rec, label + " -> forced re-run", opts)
+                    res.count("recoverability_checked")
+                    res.check(recoverable(w, rec), "recoverable:lost-after-forced-rerun", f"{label}: after the forced re-run the recording is not recoverable")
+                nt += 1
+        res.sig = f"compress-fault-{kind}-{case['delete']}-{case['seed']}"
         res.nontrivial = nt > 0
         res.nt = nt
         return res
